@@ -235,3 +235,14 @@ package nsx
 //vc:  assert[C04] at "ab.equalizeGroups(ra, rb)" @rulesPairedByOffset arg1 == a.rules[r.LowA + i] && arg2 == b.rules[r.LowB + i]
 //vc:  assert[C04] at "del(a.rules[r.LowA:r.HighA])" @deletedRangeIsDeviceRange true
 //vc:  assert[C04] at "ins(b.rules[r.LowB:r.HighB])" @insertedRangeIsNetspocRange true
+
+// addNewServices (closure 1 of diffConfig): a service of the target that the
+// device already has under that id is marked as needed and, if it differs,
+// changed in place with PATCH; one the device lacks is created with PUT; the
+// request goes to the URL of that id.
+//vc:ghost var curSvcId string
+//vc:func diffConfig$1
+//vc:  inline
+//vc:  assign at "mb[sb.Id] = true" curSvcId = sb.Id
+//vc:  assert[C04] at "sa.needed = true" @deviceServiceOfThatIdKept sa == ma[curSvcId] && sb.Id == curSvcId
+//vc:  assert[C04] at "changes = append(changes, change{method, url, postData})" @serviceRequestMatchesDeviceState url == "/policy/api/v1/infra/services/" + curSvcId && (method == "PATCH" || method == "PUT") && ((method == "PATCH") == ((curSvcId in ma) && ma[curSvcId] != nil))
